@@ -118,6 +118,36 @@ template<typename TT> struct TLCompactFam {
   static std::string mode(const Obj& o, const Cfg&) { return o.is_empty() ? "empty" : (o.is_estimation_mode() ? "estimation" : (o.get_num_retained() == 1 ? "single" : "exact")); }
 };
 
+// temporary update sketch (placement-built through the family's builder)
+template<typename TT> struct TmpUpdate {
+  typedef typename TT::UpdateSk U;
+  alignas(U) unsigned char m[sizeof(U)];
+  U& u() { return *std::launder(reinterpret_cast<U*>(m)); }
+  TmpUpdate(const TCfg& c, uint8_t lg_k, Arena* a) { TT::make_update(m, c, lg_k, a); }
+  ~TmpUpdate() { u().~U(); }
+};
+// the sketch `consumed` was passed as an rvalue to a set operation: it must accept assignment from a live
+// sketch of the same type (same or different configuration), then equal it, and be usable afterwards
+template<typename TT> void reuse_consumed_update(typename TT::UpdateSk& consumed, const TCfg& c, Rng& r, Arena* scratch) {
+  const TCfg v = tcfg_variant(c, r, true);
+  TmpUpdate<TT> live(v, r.coin() ? c.lg_k1 : c.lg_k2, scratch);
+  fill_update<TT>(live.u(), c, r);
+  typedef typename TT::UpdateSk U;
+  reuse_consumed_operand(consumed, live.u(), r,
+    [](const U& s) { return thetalike_readout<U, TT>(s); },
+    [&](U& s) { if (r.coin()) s.reset(); fill_update<TT>(s, c, r); if (r.coin()) s.trim(); (void)s.get_estimate(); });
+}
+template<typename TT> void reuse_consumed_compact(typename TT::CompactSk& consumed, const TCfg& c, Rng& r, Arena* scratch) {
+  const TCfg v = tcfg_variant(c, r, false);
+  TmpUpdate<TT> src(v, r.coin() ? c.lg_k1 : c.lg_k2, scratch);
+  fill_update<TT>(src.u(), c, r);
+  typedef typename TT::CompactSk CS;
+  CS live = src.u().compact(r.coin());
+  reuse_consumed_operand(consumed, live, r,
+    [](const CS& s) { return thetalike_readout<CS, TT>(s) + " image=" + TT::image(s); },
+    [](CS& s) { (void)s.get_estimate(); });
+}
+
 // feed a set-operation object with a temporary sketch: const& / && x update / compact (ordered or not)
 template<typename TT, typename Op> void feed_setop(Op& op, const TCfg& c, Rng& r, Arena* scratch, const char* fam_name) {
   alignas(typename TT::UpdateSk) unsigned char um[sizeof(typename TT::UpdateSk)];
@@ -128,11 +158,11 @@ template<typename TT, typename Op> void feed_setop(Op& op, const TCfg& c, Rng& r
   fill_update<TT>(u, c, r);
   const uint64_t how = r.below(4);
   if (how == 0) op.update(u);
-  else if (how == 1) { op.update(std::move(u)); xcount(std::string(fam_name) + ".merge_move"); }
+  else if (how == 1) { op.update(std::move(u)); xcount(std::string(fam_name) + ".merge_move"); if (r.coin()) reuse_consumed_update<TT>(u, c, r, scratch); }
   else {
     typename TT::CompactSk cs = u.compact(r.coin());
     if (how == 2) op.update(cs);
-    else { op.update(std::move(cs)); xcount(std::string(fam_name) + ".merge_move"); }
+    else { op.update(std::move(cs)); xcount(std::string(fam_name) + ".merge_move"); if (r.coin()) reuse_consumed_compact<TT>(cs, c, r, scratch); }
   }
   if (how == 0 || how == 2) xcount(std::string(fam_name) + ".merge_ref");
 }
@@ -205,8 +235,8 @@ template<typename TT> struct TLANotBFam {
     fill_update<TT>(a.u(), c, r); fill_update<TT>(b.u(), c, r);
     const uint64_t how = r.below(3);
     if (how == 0) { auto res = o.compute(a.u(), b.u(), r.coin()); (void)res.get_estimate(); xcount(std::string(name()) + ".merge_ref"); }
-    else if (how == 1) { auto res = o.compute(std::move(a.u()), b.u(), r.coin()); (void)res.get_estimate(); xcount(std::string(name()) + ".merge_move"); }
-    else { auto ca = a.u().compact(r.coin()); auto cb = b.u().compact(r.coin()); auto res = o.compute(std::move(ca), cb, r.coin()); (void)res.get_estimate(); xcount(std::string(name()) + ".merge_move"); }
+    else if (how == 1) { auto res = o.compute(std::move(a.u()), b.u(), r.coin()); (void)res.get_estimate(); xcount(std::string(name()) + ".merge_move"); if (r.coin()) reuse_consumed_update<TT>(a.u(), c, r, scratch); }
+    else { auto ca = a.u().compact(r.coin()); auto cb = b.u().compact(r.coin()); auto res = o.compute(std::move(ca), cb, r.coin()); (void)res.get_estimate(); xcount(std::string(name()) + ".merge_move"); if (r.coin()) reuse_consumed_compact<TT>(ca, c, r, scratch); }
   }
   static std::string readout(const Obj& o, const Cfg& c) {
     Arena local(9);
